@@ -18,6 +18,18 @@ class BXE(BaseException):
     pass
 
 
+class FV(tuple):
+    """a result value that is FALSY (as 0, "", [] or None are) but still compares equal to the plain tuple: the library
+    must never decide by the truthiness of a result or of an object returned by a user function"""
+
+    def __bool__(self):
+        return False
+
+
+def val(v):
+    return FV(("v", v)) if v % 4 == 0 else ("v", v)
+
+
 class FXE(XE):
     """an exception object that is falsy (as error aggregates with __len__ == 0 are): the library must test
     `is not None`, never truthiness"""
@@ -98,7 +110,7 @@ def execute(p, chooser):
                             return
                     if kind == "ok":
                         det.emit("env.outcome", None, (0, v))
-                        f.set_result(("v", v))
+                        f.set_result(val(v))
                     else:
                         det.emit("env.outcome", None, (1, v))
                         f.set_exception(exc(v))
@@ -120,7 +132,7 @@ def execute(p, chooser):
                 obs["fn_calls"].setdefault(i, []).append(x)
                 if a[0] == "ret":
                     det.user("fn", (0, a[1]))
-                    return ("v", a[1])
+                    return val(a[1])
                 if a[0] == "raise":
                     det.user("fn", (1, a[1]))
                     raise exc(a[1])
@@ -132,7 +144,7 @@ def execute(p, chooser):
                 obs["efn_calls"].setdefault(i, []).append(ex)
                 if a[0] == "ret":
                     det.user("efn", (0, a[1]))
-                    return ("v", a[1])
+                    return val(a[1])
                 if a[0] == "raise":
                     det.user("efn", (1, a[1]))
                     raise exc(a[1])
